@@ -1173,6 +1173,12 @@ func c20CheckCase(c c20Case, o *vt.Obs) error {
 	if w.src, err = w.newServer(b.N.BC); err != nil {
 		return fmt.Errorf("source server: %v", err)
 	}
+	defer func() {
+		if b.Excluded > 0 { // see ck.KnownOracleOrigTx
+			o.Excluded()
+			o.Label("excluded/" + ck.KnownOracleOrigTx)
+		}
+	}()
 	if w.n, err = ck.NewNode(c.Chain, c.Node, nil); err != nil {
 		return fmt.Errorf("syncing node: %v", err)
 	}
